@@ -326,6 +326,10 @@ class MathArray(np.ndarray):
         else:
             # just in case it had been an integer-like float
             exponent = int(exponent)
+            if exponent < 0 and np.linalg.matrix_rank(np.asarray(self)) < self.shape[0]:
+                # matrix_power only notices an exactly zero pivot; a matrix that is singular
+                # to working precision would otherwise come back with huge garbage entries
+                raise MathArrayError('Cannot raise singular matrix to negative powers.')
             try:
                 return np.linalg.matrix_power(self, exponent)
             except np.linalg.LinAlgError as error:
